@@ -131,6 +131,49 @@ func (c *Ctx) elemRange(f *core.Func, x ast.Expr, level int) (vrange, bool) {
 	switch y := x.(type) {
 	case *ast.IndexExpr:
 		return c.elemRange(f, y.X, level+1)
+	case *ast.CallExpr:
+		// a function of the library whose every return hands out a constant table
+		fo := core.StaticCallee(info, y)
+		if fo == nil || level > 3 {
+			return vrange{}, false
+		}
+		g := c.P.FuncOf(fo)
+		if g == nil || g.Decl == nil || g.Body == nil || g == f {
+			return vrange{}, false
+		}
+		if res := g.Decl.Type.Results; res == nil || len(res.List) != 1 || len(res.List[0].Names) > 0 {
+			return vrange{}, false
+		}
+		var out vrange
+		n, ok := 0, true
+		g.OwnNodes(func(z ast.Node) bool {
+			ret, isRet := z.(*ast.ReturnStmt)
+			if !isRet {
+				return true
+			}
+			if len(ret.Results) != 1 {
+				ok = false
+				return true
+			}
+			r, rok := c.elemRange(g, ret.Results[0], level)
+			if !rok {
+				ok = false
+				return true
+			}
+			if n == 0 || r.lo < out.lo {
+				out.lo = r.lo
+			}
+			if n == 0 || r.hi > out.hi {
+				out.hi = r.hi
+			}
+			n++
+			return true
+		})
+		if !ok || n == 0 {
+			return vrange{}, false
+		}
+		out.why = fmt.Sprintf("every return of %s is a constant table with elements in [%d,%d]", g.Name, out.lo, out.hi)
+		return out, true
 	case *ast.Ident:
 		v, ok := info.Uses[y].(*types.Var)
 		if !ok || v.Pkg() == nil || v.Parent() != v.Pkg().Scope() || !c.constantGlobal(v) {
